@@ -57,6 +57,18 @@ type opData struct {
 	foreign      bool // one-sided message naming a denomination outside the pool's pair
 }
 
+// parked: the reference's only state - standard coins users sent to the module's own account by plain transfers
+type parked struct{ n *big.Int }
+
+func (p *parked) amount() *big.Int {
+	if p == nil || p.n == nil {
+		return new(big.Int)
+	}
+	return p.n
+}
+func (p *parked) Clone() mc.Model { return &parked{n: new(big.Int).Set(p.amount())} }
+func (p *parked) Canon() []byte   { return []byte(p.amount().String()) }
+
 // Driver implements mc.Driver.
 type Driver struct{ V Variant }
 
@@ -268,6 +280,9 @@ func (d *Driver) Enabled(e *mc.Env, s *mc.State) []mc.Op {
 		add(fmt.Sprintf("%s(%s,btc,deadline=past)", k, who), v)
 	}
 	add("rmliq(A,btc,all)", opData{kind: "rmliq", who: "A", pool: "btc", all: true, bound: "loose"})
+	// somebody parks standard coins on the module's own account (it is an ordinary address to the bank): what
+	// later messages move and burn is still exactly what the property says
+	add("park(C,stake->module-account)", opData{kind: "park", who: "C", amt: a})
 	// a third denomination lands on the pool's escrow account by a plain transfer; one-sided messages naming it
 	// have nothing to do with the pool's pair and must never succeed
 	add("donate(eth->btc-pool)", opData{kind: "donate", who: "C", pool: "btc", side: "eth", amt: a})
@@ -375,6 +390,15 @@ func (d *Driver) apply(e *mc.Env, s *mc.State, op mc.Op) []mc.Finding {
 			dn = lptDenom
 		}
 		s.Deliver(e, op.Name, mc.Send(mc.Addr(od.who), esc, mc.CI(dn, od.amt)))
+		return nil
+	case "park":
+		if out := s.Deliver(e, op.Name, mc.Send(mc.Addr(od.who), mc.ModuleAddr(cstypes.ModuleName), mc.CI(std, od.amt))); out.OK {
+			pm, _ := s.Model.(*parked)
+			if pm == nil {
+				pm = &parked{}
+			}
+			s.Model = &parked{n: new(big.Int).Add(pm.amount(), od.amt.BigInt())}
+		}
 		return nil
 	case "param":
 		p := e.Coinswap.GetParams(s.Ctx)
@@ -860,9 +884,13 @@ func (d *Driver) Check(e *mc.Env, s *mc.State) []mc.Finding {
 	s.Nontrivial = n >= 2 && s.Depth > 0
 	var fs []mc.Finding
 	if d.V.Mode == "C02" {
-		// the module account never retains coins between messages
-		if c := e.AllBal(s.Ctx, mc.ModuleAddr(cstypes.ModuleName)); !c.IsZero() {
-			fs = append(fs, mc.F("C02/module-account-retains-coins", "coinswap module account holds %s", c))
+		// the module account never retains coins between messages: it holds what users parked there themselves
+		want := sdk.NewCoins()
+		if pm, _ := s.Model.(*parked); pm != nil && pm.amount().Sign() > 0 {
+			want = sdk.NewCoins(mc.CI(std, sdkmath.NewIntFromBigInt(pm.amount())))
+		}
+		if c := e.AllBal(s.Ctx, mc.ModuleAddr(cstypes.ModuleName)); !c.Equal(want) {
+			fs = append(fs, mc.F("C02/module-account-retains-coins", "coinswap module account holds %s, users parked %s there", c, want))
 		}
 	}
 	return fs
